@@ -107,7 +107,7 @@ def chain_case(r, name):
 
 
 def run():
-    chk = Check("C10", props_modules=["GFO.Props.C10", "GFO.Props.InitRuns"])
+    chk = Check("C10", props_modules=["GFO.Props.C10", "GFO.Props.InitRuns", "GFO.Props.InitRuns2", "GFO.Props.PopInitRuns"])
     chk.build_and_audit()
     r = C.rng("C10")
     quick = C.tier() != "thorough"
